@@ -649,7 +649,61 @@ def r12_13(chk):
     chk.floor("R12.13", 1, "one converter")
 
 
+def r12_14(chk):
+    chk.rule("R12.14", "a reading frame on the minus strand is an offset into the REVERSE COMPLEMENT: in select_translatable.main the sequence is cut by the frame offset (and truncated to whole codons) only after the strand has been selected -- no slice of the per-record sequence by a value derived from the frame is followed, in the same iteration, by rc(); otherwise offset and truncation fall on the wrong ends and the returned sequence is in another frame than the one best_frame chose (frame -1 with len % 3 != 0)")
+    from ..cfg import build
+    from ..defuse import derived_names, expr_derives
+
+    m = chk.repo.module("app/translate.py")
+    q = "select_translatable.main"
+    fn = m.func(q)
+    g = build(fn)
+    loops = [lp for lp in walk_no_nested(fn) if isinstance(lp, ast.For) and isinstance(lp.target, ast.Name)]
+    if not loops:
+        raise AnalysisError(f"{q}: record loop not found")
+    sv = loops[0].target.id
+    frames = {st.targets[0].id for st in walk_no_nested(fn) if isinstance(st, ast.Assign) and isinstance(st.targets[0], ast.Name) and isinstance(st.value, ast.Call) and "_get_frame" in norm(st.value.func)}
+    if not frames:
+        raise AnalysisError(f"{q}: the frame variable was not found")
+    d = derived_names(fn, set(frames))
+    slices = g.nodes_containing(lambda x: isinstance(x, ast.Subscript) and isinstance(x.slice, ast.Slice) and norm(x.value) == sv and any(expr_derives(b, d) for b in (x.slice.lower, x.slice.upper) if b is not None))
+    rcs = g.nodes_containing(lambda x: isinstance(x, ast.Call) and isinstance(x.func, ast.Attribute) and x.func.attr == "rc" and norm(x.func.value) == sv)
+    heads = g.stmt_nodes(loops[0])
+    k = key(m, q, "strand selected before the frame cut")
+    if not slices or not rcs:
+        raise AnalysisError(f"{q}: frame slice / rc() call not found")
+    bad = None
+    for sl in slices:
+        seen = g.reachable([b for b, kd in sl.succ if kd == "n"], blocked=heads, kinds=("n",))
+        for r in rcs:
+            if id(r) in seen:
+                bad = (sl, r)
+    chk.decide(bad is None, "R12.14", k, m.loc(bad[0].ast if bad else slices[0].ast), "rc() is never reached after the frame cut within an iteration", f"`{norm(bad[0].ast)[:60] if bad else ''}` cuts the plus strand by the frame offset and `{norm(bad[1].ast)[:40] if bad else ''}` is applied afterwards: for a minus-strand frame the offset is taken from the wrong end")
+    chk.floor("R12.14", 1, "select_translatable.main")
+
+
+def r12_15(chk):
+    chk.rule("R12.15", "positions found in a GAPPED row are alignment columns, not sequence positions: in the alignment-level stop-codon methods (AlignmentI.trim_stop_codons / has_terminal_stop[s]) no frame arithmetic (% 3, // 3) is applied to the position of a regex match over the gapped text -- with a number of gap columns upstream that is not a multiple of 3 an in-frame terminal stop has column % 3 != 0 and would be left in place")
+    from ..defuse import derived_names, expr_derives
+
+    m = chk.repo.module("core/alignment.py")
+    n = 0
+    for q in ("AlignmentI.trim_stop_codons", "AlignmentI.has_terminal_stop"):
+        try:
+            fn = m.func(q)
+        except Exception:
+            continue
+        n += 1
+        matches = {t.id for st in walk_no_nested(fn) for t in ((st.targets if isinstance(st, ast.Assign) else [st.target]) if isinstance(st, (ast.Assign, ast.NamedExpr)) else []) if isinstance(t, ast.Name) and isinstance(st.value, ast.Call) and isinstance(st.value.func, ast.Attribute) and st.value.func.attr in ("search", "match", "finditer")}
+        d = derived_names(fn, matches) if matches else set()
+        bad = [b for b in walk_no_nested(fn) if isinstance(b, ast.BinOp) and isinstance(b.op, (ast.Mod, ast.FloorDiv)) and isinstance(b.right, ast.Constant) and b.right.value == 3 and (expr_derives(b.left, d) or any(isinstance(x, ast.Name) and x.id in matches for x in ast.walk(b.left)))]
+        chk.decide(not bad, "R12.15", key(m, q, "no frame arithmetic on gapped match positions"), m.loc(bad[0] if bad else fn), f"{len(matches)} match object(s), none used in % 3 / // 3", f"`{norm(bad[0]) if bad else ''}` takes the frame of a column of the gapped row: ATG-CCCTGA-- has its in-frame terminal stop at column 7, so trim_stop_codons() leaves it in place while Sequence.trim_stop_codon removes it")
+    chk.floor("R12.15", 1, "AlignmentI.trim_stop_codons")
+
+
 def run(chk):
+    r12_15(chk)
+    r12_14(chk)
     r12_13(chk)
     r12_12(chk)
     r12_11(chk)
